@@ -572,7 +572,11 @@ func builtinAppend(args ...Object) (Object, error) {
 	case *Array:
 		return &Array{Value: append(arg.Value, args[1:]...)}, nil
 	case *ImmutableArray:
-		return &Array{Value: append(arg.Value, args[1:]...)}, nil
+		// never append in place: spare capacity of the immutable array's
+		// storage may be visible through other values
+		res := make([]Object, 0, len(arg.Value)+len(args)-1)
+		res = append(res, arg.Value...)
+		return &Array{Value: append(res, args[1:]...)}, nil
 	default:
 		return nil, ErrInvalidArgumentType{
 			Name:     "first",
